@@ -1,6 +1,7 @@
 /-
 Executable SHAKE256 (FIPS 202), first 32 output bytes. Same status as `Sha256`: run, not reasoned about;
-checked against the `sha3` crate by the correspondence check.
+checked against the `sha3` crate by the correspondence check. The round function is unrolled over 25
+scalar fields (arrays of UInt64 are boxed in Lean and an order of magnitude slower).
 -/
 import HbsLms.Basic.Bytes
 
@@ -14,65 +15,145 @@ private def RC : Array UInt64 := #[
   0x8000000000008002, 0x8000000000000080, 0x000000000000800a, 0x800000008000000a,
   0x8000000080008081, 0x8000000000008080, 0x0000000080000001, 0x8000000080008008]
 
-private def ROT : Array UInt64 := #[
-   0,  1, 62, 28, 27,
-  36, 44,  6, 55, 20,
-   3, 10, 43, 25, 39,
-  41, 45, 15, 21,  8,
-  18,  2, 61, 56, 14]
+@[inline] private def rotl (x : UInt64) (n : UInt64) : UInt64 := (x <<< n) ||| (x >>> (64 - n))
 
-@[inline] private def rotl (x : UInt64) (n : UInt64) : UInt64 :=
-  if n == 0 then x else (x <<< n) ||| (x >>> (64 - n))
+structure St where
+  a0 : UInt64 := 0
+  a1 : UInt64 := 0
+  a2 : UInt64 := 0
+  a3 : UInt64 := 0
+  a4 : UInt64 := 0
+  a5 : UInt64 := 0
+  a6 : UInt64 := 0
+  a7 : UInt64 := 0
+  a8 : UInt64 := 0
+  a9 : UInt64 := 0
+  a10 : UInt64 := 0
+  a11 : UInt64 := 0
+  a12 : UInt64 := 0
+  a13 : UInt64 := 0
+  a14 : UInt64 := 0
+  a15 : UInt64 := 0
+  a16 : UInt64 := 0
+  a17 : UInt64 := 0
+  a18 : UInt64 := 0
+  a19 : UInt64 := 0
+  a20 : UInt64 := 0
+  a21 : UInt64 := 0
+  a22 : UInt64 := 0
+  a23 : UInt64 := 0
+  a24 : UInt64 := 0
 
-/-- state index: x + 5*y -/
-private def f1600 (s0 : Array UInt64) : Array UInt64 := Id.run do
+/-- one round; lane index = x + 5*y -/
+private def round (s : St) (rc : UInt64) : St :=
+  let c0 := s.a0 ^^^ s.a5 ^^^ s.a10 ^^^ s.a15 ^^^ s.a20
+  let c1 := s.a1 ^^^ s.a6 ^^^ s.a11 ^^^ s.a16 ^^^ s.a21
+  let c2 := s.a2 ^^^ s.a7 ^^^ s.a12 ^^^ s.a17 ^^^ s.a22
+  let c3 := s.a3 ^^^ s.a8 ^^^ s.a13 ^^^ s.a18 ^^^ s.a23
+  let c4 := s.a4 ^^^ s.a9 ^^^ s.a14 ^^^ s.a19 ^^^ s.a24
+  let d0 := c4 ^^^ rotl c1 1
+  let d1 := c0 ^^^ rotl c2 1
+  let d2 := c1 ^^^ rotl c3 1
+  let d3 := c2 ^^^ rotl c4 1
+  let d4 := c3 ^^^ rotl c0 1
+  let b0 := s.a0 ^^^ d0
+  let b16 := rotl (s.a5 ^^^ d0) 36
+  let b7 := rotl (s.a10 ^^^ d0) 3
+  let b23 := rotl (s.a15 ^^^ d0) 41
+  let b14 := rotl (s.a20 ^^^ d0) 18
+  let b10 := rotl (s.a1 ^^^ d1) 1
+  let b1 := rotl (s.a6 ^^^ d1) 44
+  let b17 := rotl (s.a11 ^^^ d1) 10
+  let b8 := rotl (s.a16 ^^^ d1) 45
+  let b24 := rotl (s.a21 ^^^ d1) 2
+  let b20 := rotl (s.a2 ^^^ d2) 62
+  let b11 := rotl (s.a7 ^^^ d2) 6
+  let b2 := rotl (s.a12 ^^^ d2) 43
+  let b18 := rotl (s.a17 ^^^ d2) 15
+  let b9 := rotl (s.a22 ^^^ d2) 61
+  let b5 := rotl (s.a3 ^^^ d3) 28
+  let b21 := rotl (s.a8 ^^^ d3) 55
+  let b12 := rotl (s.a13 ^^^ d3) 25
+  let b3 := rotl (s.a18 ^^^ d3) 21
+  let b19 := rotl (s.a23 ^^^ d3) 56
+  let b15 := rotl (s.a4 ^^^ d4) 27
+  let b6 := rotl (s.a9 ^^^ d4) 20
+  let b22 := rotl (s.a14 ^^^ d4) 39
+  let b13 := rotl (s.a19 ^^^ d4) 8
+  let b4 := rotl (s.a24 ^^^ d4) 14
+  { a0 := (b0 ^^^ ((~~~ b1) &&& b2)) ^^^ rc,
+    a1 := b1 ^^^ ((~~~ b2) &&& b3),
+    a2 := b2 ^^^ ((~~~ b3) &&& b4),
+    a3 := b3 ^^^ ((~~~ b4) &&& b0),
+    a4 := b4 ^^^ ((~~~ b0) &&& b1),
+    a5 := b5 ^^^ ((~~~ b6) &&& b7),
+    a6 := b6 ^^^ ((~~~ b7) &&& b8),
+    a7 := b7 ^^^ ((~~~ b8) &&& b9),
+    a8 := b8 ^^^ ((~~~ b9) &&& b5),
+    a9 := b9 ^^^ ((~~~ b5) &&& b6),
+    a10 := b10 ^^^ ((~~~ b11) &&& b12),
+    a11 := b11 ^^^ ((~~~ b12) &&& b13),
+    a12 := b12 ^^^ ((~~~ b13) &&& b14),
+    a13 := b13 ^^^ ((~~~ b14) &&& b10),
+    a14 := b14 ^^^ ((~~~ b10) &&& b11),
+    a15 := b15 ^^^ ((~~~ b16) &&& b17),
+    a16 := b16 ^^^ ((~~~ b17) &&& b18),
+    a17 := b17 ^^^ ((~~~ b18) &&& b19),
+    a18 := b18 ^^^ ((~~~ b19) &&& b15),
+    a19 := b19 ^^^ ((~~~ b15) &&& b16),
+    a20 := b20 ^^^ ((~~~ b21) &&& b22),
+    a21 := b21 ^^^ ((~~~ b22) &&& b23),
+    a22 := b22 ^^^ ((~~~ b23) &&& b24),
+    a23 := b23 ^^^ ((~~~ b24) &&& b20),
+    a24 := b24 ^^^ ((~~~ b20) &&& b21) }
+
+private def f1600 (s0 : St) : St := Id.run do
   let mut s := s0
   for r in [0:24] do
-    -- theta
-    let mut c : Array UInt64 := Array.replicate 5 0
-    for x in [0:5] do
-      c := c.set! x (s[x]! ^^^ s[x+5]! ^^^ s[x+10]! ^^^ s[x+15]! ^^^ s[x+20]!)
-    for x in [0:5] do
-      let d := c[(x+4)%5]! ^^^ rotl c[(x+1)%5]! 1
-      for y in [0:5] do
-        s := s.set! (x + 5*y) (s[x + 5*y]! ^^^ d)
-    -- rho + pi
-    let mut b : Array UInt64 := Array.replicate 25 0
-    for x in [0:5] do
-      for y in [0:5] do
-        b := b.set! (y + 5 * ((2*x + 3*y) % 5)) (rotl s[x + 5*y]! ROT[x + 5*y]!)
-    -- chi
-    for x in [0:5] do
-      for y in [0:5] do
-        s := s.set! (x + 5*y) (b[x + 5*y]! ^^^ ((~~~ b[(x+1)%5 + 5*y]!) &&& b[(x+2)%5 + 5*y]!))
-    -- iota
-    s := s.set! 0 (s[0]! ^^^ RC[r]!)
+    s := round s RC[r]!
   return s
 
 private def rate : Nat := 136
 
-private def absorbBlock (s : Array UInt64) (blk : ByteArray) (off : Nat) : Array UInt64 := Id.run do
-  let mut s := s
-  for i in [0:rate/8] do
-    let mut v : UInt64 := 0
-    for j in [0:8] do
-      v := v ||| (blk[off + 8*i + j]!.toUInt64 <<< (8 * j).toUInt64)
-    s := s.set! i (s[i]! ^^^ v)
-  return f1600 s
+@[inline] private def lane (blk : ByteArray) (off : Nat) : UInt64 :=
+  blk[off]!.toUInt64 ||| (blk[off+1]!.toUInt64 <<< 8) ||| (blk[off+2]!.toUInt64 <<< 16) ||| (blk[off+3]!.toUInt64 <<< 24) |||
+  (blk[off+4]!.toUInt64 <<< 32) ||| (blk[off+5]!.toUInt64 <<< 40) ||| (blk[off+6]!.toUInt64 <<< 48) ||| (blk[off+7]!.toUInt64 <<< 56)
+
+private def absorbBlock (s : St) (blk : ByteArray) (o : Nat) : St :=
+  f1600 { s with
+    a0 := s.a0 ^^^ lane blk (o + 0),
+    a1 := s.a1 ^^^ lane blk (o + 8),
+    a2 := s.a2 ^^^ lane blk (o + 16),
+    a3 := s.a3 ^^^ lane blk (o + 24),
+    a4 := s.a4 ^^^ lane blk (o + 32),
+    a5 := s.a5 ^^^ lane blk (o + 40),
+    a6 := s.a6 ^^^ lane blk (o + 48),
+    a7 := s.a7 ^^^ lane blk (o + 56),
+    a8 := s.a8 ^^^ lane blk (o + 64),
+    a9 := s.a9 ^^^ lane blk (o + 72),
+    a10 := s.a10 ^^^ lane blk (o + 80),
+    a11 := s.a11 ^^^ lane blk (o + 88),
+    a12 := s.a12 ^^^ lane blk (o + 96),
+    a13 := s.a13 ^^^ lane blk (o + 104),
+    a14 := s.a14 ^^^ lane blk (o + 112),
+    a15 := s.a15 ^^^ lane blk (o + 120),
+    a16 := s.a16 ^^^ lane blk (o + 128) }
+
+private def pushLane (out : ByteArray) (v : UInt64) : ByteArray := Id.run do
+  let mut o := out
+  for j in [0:8] do
+    o := o.push (v >>> (8 * j).toUInt64).toUInt8
+  return o
 
 def shake256_32BA (msg : ByteArray) : ByteArray := Id.run do
   let mut p := msg.push 0x1f
   while p.size % rate != 0 do
     p := p.push 0
   p := p.set! (p.size - 1) (p[p.size - 1]! ||| 0x80)
-  let mut s : Array UInt64 := Array.replicate 25 0
+  let mut s : St := {}
   for i in [0:p.size / rate] do
     s := absorbBlock s p (rate * i)
-  let mut out := ByteArray.empty
-  for i in [0:4] do
-    for j in [0:8] do
-      out := out.push (s[i]! >>> (8 * j).toUInt64).toUInt8
-  return out
+  return pushLane (pushLane (pushLane (pushLane ByteArray.empty s.a0) s.a1) s.a2) s.a3
 
 def shake256_32 (msg : Bytes) : Bytes := (shake256_32BA (ByteArray.mk msg.toArray)).toList
 
